@@ -21,6 +21,10 @@ func Extension(ctx *expr.Context, input system.Collection, args ...expr.Expressi
 	if err != nil {
 		return nil, err
 	}
+	if arg.IsEmpty() {
+		// no url to look for: like extension.where(url = {}), nothing is selected
+		return system.Collection{}, nil
+	}
 	str, err := arg.ToString()
 	if err != nil {
 		return nil, err
